@@ -331,3 +331,83 @@ func VH_C01_boc_count(k int, opts int) {
 	zzvrt.Cover("reached", true)
 	zzvrt.ObserveInt("len", len(b))
 }
+
+// leaves are concrete except in shape 2 (several symbolic leaves make the equality of their hashes,
+// i.e. whether they are de-duplicated, symbolic: that did not finish)
+func vLeaf(tag int, sym bool) *Cell {
+	c := NewCell()
+	if sym {
+		for b := 0; b < 5; b++ {
+			_ = c.WriteBit(zzvrt.NondetBool("leaf"))
+		}
+	}
+	_ = c.WriteUint(uint64(tag), 8)
+	return c
+}
+
+// Other DAG shapes through the whole serialiser (import, hash-keyed de-duplication, weight-based
+// reordering, header) and back: shape 0 = a root with four leaves; 1 = two levels with a leaf shared
+// by both inner cells; 2 = a leaf shared at two different depths (it has to be stored after every
+// cell that refers to it).  The root carries symbolic bits (shape 2: the shared leaf too); the three options are symbolic.
+func VH_C01_boc_dag(shape int, opts int) {
+	root := vChainCell(0, true)
+	cells := 0
+	switch shape {
+	case 0:
+		for i := 0; i < 4; i++ {
+			_ = root.AddRef(vLeaf(10+i, false))
+		}
+		cells = 5
+	case 1:
+		x, y, z := vLeaf(21, false), vLeaf(22, false), vLeaf(23, false)
+		a, b := vChainCell(1, false), vChainCell(2, false)
+		_ = a.AddRef(x)
+		_ = a.AddRef(y)
+		_ = b.AddRef(y)
+		_ = b.AddRef(z)
+		_ = root.AddRef(a)
+		_ = root.AddRef(b)
+		cells = 6
+	default:
+		leaf := vLeaf(31, true)
+		b := vChainCell(2, false)
+		_ = b.AddRef(leaf)
+		a := vChainCell(1, false)
+		_ = a.AddRef(b)
+		_ = root.AddRef(a)
+		_ = root.AddRef(leaf)
+		cells = 4
+	}
+	idx, crc, cache := opts&1 != 0, opts&2 != 0, opts&4 != 0 // opts 0..7: that combination; -1: symbolic
+	if opts < 0 {
+		idx, crc, cache = zzvrt.NondetBool("idx"), zzvrt.NondetBool("crc"), zzvrt.NondetBool("cache")
+	}
+	b, err := SerializeBoc(root, idx, crc, cache, 0)
+	zzvrt.Assert("serialise-ok", err == nil)
+	h, err := parseBocHeader(b)
+	zzvrt.Assert("header-ok", err == nil)
+	if err == nil {
+		zzvrt.Assert("every-cell-stored-once", int(h.cellCount) == cells)
+		zzvrt.Assert("one-root-at-index-0", len(h.rootList) == 1 && h.rootList[0] == 0)
+	}
+	roots, err := DeserializeBoc(b)
+	zzvrt.Assert("parse-ok", err == nil && len(roots) == 1)
+	if err == nil && len(roots) == 1 {
+		zzvrt.Assert("same-tree", vSameTree(roots[0], root, 5))
+		if shape == 1 {
+			zzvrt.Assert("shared-leaf-is-one-object", roots[0].refs[0].refs[1] == roots[0].refs[1].refs[0])
+		}
+		if shape == 2 {
+			zzvrt.Assert("shared-leaf-is-one-object", roots[0].refs[1] == roots[0].refs[0].refs[0].refs[0])
+		}
+		b2, err := SerializeBoc(roots[0], idx, crc, cache, 0)
+		zzvrt.Assert("reserialise-ok", err == nil && len(b2) == len(b))
+		same := true
+		for i := 0; i < len(b) && i < len(b2); i++ {
+			same = zzvrt.And(same, b[i] == b2[i])
+		}
+		zzvrt.Assert("canonical-bytes", same)
+	}
+	zzvrt.Cover("parsed", err == nil)
+	zzvrt.ObserveInt("len", len(b))
+}
